@@ -54,6 +54,15 @@ def check_law(case):
             # look at one coordinate only
             B = (pow(BETA, case["endo"], P) * A[0] % P, (-A[1]) % P if case.get("negy") else A[1])
             cls.append("nt:pair-same-or-negated-y-different-x")
+        if case.get("high") is not None:
+            # an operand with a coordinate between the group order and the field prime (not a multiple of G we know)
+            hp = gen.high_coord_points()
+            A = hp[case["high"] % len(hp)][1]
+            if case.get("high_rel") == "same":
+                B = A
+            elif case.get("high_rel") == "neg":
+                B = ec.neg(A)
+            cls.append("nt:operand-coordinate-in-n..p")
         if A is None or B is None:
             kind = "identity"
         elif A == B:
@@ -91,6 +100,10 @@ def check_law(case):
         a, b, c = case["a"], case["b"], case["c"]
         Pt = _pt(c) if c % N else ec.G
         cls.append("nt:identity-distrib")
+        if (a + b + c) % 7 == 0:
+            hp = gen.high_coord_points()
+            Pt = hp[(a + c) % len(hp)][1]
+            cls.append("nt:operand-coordinate-in-n..p")
         lhs = attempt(em.point_scalar_mul, a + b, Pt)
         r1, r2 = attempt(em.point_scalar_mul, a, Pt), attempt(em.point_scalar_mul, b, Pt)
         rhs = attempt(em.point_add, r1, r2) if not (raised(r1) or raised(r2)) else r1
@@ -276,6 +289,8 @@ def law_cases(draw):
             return {"op": op, "a": a if a % N else 1, "b": 1, "endo": draw(st.sampled_from([1, 2])), "negy": draw(st.booleans())}
         if draw(st.booleans()):
             a, b = b, a
+        if draw(st.integers(0, 5)) == 0:
+            return {"op": op, "a": a, "b": b, "high": draw(st.integers(0, 14)), "high_rel": draw(st.sampled_from(["same", "neg", "other", "other"]))}
         return {"op": op, "a": a, "b": b}
     if op == "mul":
         k = draw(st.one_of(s, st.integers(2**256, 2**258)))
@@ -327,7 +342,7 @@ def targets(tier):
     return [
         Target("law-secp", check_law, strategy=lambda tier: law_cases(), budget={"quick": 640, "thorough": 10000},
                required=["nt:pair-identity", "nt:pair-doubling", "nt:pair-inverse", "nt:pair-same-or-negated-y-different-x", "nt:scalar-boundary", "nt:identity-distrib", "nt:identity-assoc", "nt:off-curve", "nt:mul-identity-operand",
-                         "nt:after-mod-n-division-by-the-slope-denominator"]),
+                         "nt:after-mod-n-division-by-the-slope-denominator", "nt:operand-coordinate-in-n..p"]),
         Target("law-small", check_small, enumerate_=enum_small, exhaustive=True, required=["nt:small-after-ecdsa-verify"]),
         Target("privkey", check_privkey, strategy=lambda tier: privkey_cases(), budget={"quick": 1500, "thorough": 30000},
                required=["nt:invalid-len", "nt:invalid-range", "nt:valid-boundary-or-leading-zero"]),
